@@ -50,7 +50,7 @@ def run_scenarios(ctx: Ctx, scenarios: list) -> None:
 
 def run(ctx: Ctx) -> None:
     rng = random.Random(ctx.seed * 7919 + 17)
-    run_scenarios(ctx, [rf.gen_c17(rng, 'c17-%d' % k, ctx.thorough) for k in range(ctx.pick(250, 4000))])
+    run_scenarios(ctx, [rf.gen_c17(rng, 'c17-%d' % k, ctx.thorough) for k in range(ctx.pick(400, 12000))])
 
 
 def replay(ctx: Ctx, path: str) -> None:
